@@ -241,6 +241,22 @@ func envInt(name string, def int) int {
 func TestVerifC02Bounded(t *testing.T) {
 	maxPlayers := envInt("VERIF_C02_PLAYERS", 4)
 	maxAmount := int64(envInt("VERIF_C02_AMOUNT", 3))
+	// the amounts tried: 0..maxAmount, or an explicit (sparse) list VERIF_C02_AMOUNTS=0,1,2,3,5
+	var amounts []int64
+	for a := int64(0); a <= maxAmount; a++ {
+		amounts = append(amounts, a)
+	}
+	if l := os.Getenv("VERIF_C02_AMOUNTS"); l != "" {
+		amounts = nil
+		for _, f := range strings.Split(l, ",") {
+			if v, err := strconv.ParseInt(strings.TrimSpace(f), 10, 64); err == nil {
+				amounts = append(amounts, v)
+				if v > maxAmount {
+					maxAmount = v
+				}
+			}
+		}
+	}
 	maxScore := envInt("VERIF_C02_SCORES", 2)
 	cases, nontrivial, knownHits := 0, 0, 0
 	var samples []c02case
@@ -282,7 +298,7 @@ func TestVerifC02Bounded(t *testing.T) {
 				}
 				return
 			}
-			for a := int64(0); a <= maxAmount; a++ {
+			for _, a := range amounts {
 				for _, fl := range []bool{false, true} {
 					top := maxScore
 					if fl {
